@@ -479,6 +479,12 @@ def enableTracking (c : Client) : Client :=
     let s1 := (step s0 (.nickInfo c.cfg.meNick c.cfg.meIdent c.cfg.meHost c.cfg.meName)).1
     refreshMe { c with st := some s1 }
 
+/-- `DisableStateTracking`: `cfg.Me` keeps the tracker's last word on the client, the tracker goes away -/
+def disableTracking (c : Client) : Client :=
+  match c.st with
+  | some _ => { refreshMe c with st := none }
+  | none => c
+
 /-- `initialise()`'s effect on the client-level state at every connect: the tracker is wiped and (since fix 6ca41f7:
 what a server advertised or acknowledged belongs to the connection it said it on) both capability sets are emptied -/
 def wipeOnConnect (c : Client) : Client := { (tk c .wipe).1 with supported := [], curr := [] }
